@@ -453,8 +453,17 @@ def _try_inline(func: ast.AST, name: str, defs: dict) -> bool:
     span = after[: last + 1]
     if _is_pure(expr):
         for s in span:
+            skip = set()
+            if s is span[-1] and isinstance(s, (ast.Assign, ast.AnnAssign)) and s.value is not None:
+                # the right-hand side is evaluated before the targets are stored: a target re-assigning what the
+                # expression reads is harmless when every use in this last statement is in the right-hand side
+                in_value = {id(n) for n in ast.walk(s.value)}
+                if all(id(u) in in_value for u in uses if id(u) in {id(n) for n in ast.walk(s)}):
+                    for t in (s.targets if isinstance(s, ast.Assign) else [s.target]):
+                        if isinstance(t, ast.Name):
+                            skip.add(id(t))
             for n in ast.walk(s):
-                if isinstance(n, ast.Name) and isinstance(n.ctx, ast.Store) and n.id in free:
+                if isinstance(n, ast.Name) and isinstance(n.ctx, ast.Store) and n.id in free and id(n) not in skip:
                     return False
                 if isinstance(n, (ast.Attribute, ast.Subscript)) and isinstance(n.ctx, (ast.Store, ast.Del)) and any(ast.unparse(n).startswith(a) or a.startswith(ast.unparse(n)) for a in attrs):
                     return False
